@@ -514,6 +514,10 @@ class C20(Prop):
         self._cache = {}
         self._totals = None
 
+    def fuzz(self, tier):
+        # millisecond cases: libFuzzer mutates the byte stream behind the strategy and keeps inputs reaching new library branches
+        return dict(runs=400 if tier == "quick" else 20000, shards=8 if tier == "quick" else 16, include=["renormalizer.mps.symbolic_mpo", "renormalizer.lib"])
+
     def budget(self, tier):
         return dict(examples=4000, shards=16) if tier == "quick" else dict(examples=60000, shards=16)
 
